@@ -151,6 +151,13 @@ class Dual:
         return rat_is_zero(self.a) and rat_is_zero(self.b)
 
 
+OPAQUE = [False]     # when set, transcendental functions / symbolic powers of symbolic arguments become opaque atoms
+
+
+def _opaque(name, *parts):
+    return Dual(_A.atom(f"{name}[" + " | ".join(repr(simplify(_A.norm(p))) for p in parts) + "]"))
+
+
 def d_pow(x: Dual, k) -> Dual:
     """x ** k for constant exponent k (Fraction/int/float or a Dual without eps part)."""
     if isinstance(k, Dual):
@@ -190,6 +197,8 @@ def d_pow(x: Dual, k) -> Dual:
         if rat_is_zero(x.b):
             return Dual(_A.norm(val))
         return Dual(_A.norm(val), _A.norm(R(kc) * val / x.a * x.b))
+    if OPAQUE[0] and rat_is_zero(x.b):
+        return _opaque("pow", x.a, ksym)
     raise EvalError(f"power {x!r} ** {k!r} not representable")
 
 
@@ -198,18 +207,26 @@ def d_fun(name, x: Dual) -> Dual:
     if name == "log":
         if a0 == 1:
             return Dual(ZERO, x.b)
+        if OPAQUE[0] and rat_is_zero(x.b):
+            return _opaque("log", x.a)
         raise EvalError(f"log at {x.a!r}")
     if name == "log1p":
         if a0 == 0:
             return Dual(ZERO, x.b)
+        if OPAQUE[0] and rat_is_zero(x.b):
+            return _opaque("log1p", x.a)
         raise EvalError(f"log1p at {x.a!r}")
     if name == "exp":
         if a0 == 0:
             return Dual(ONE, x.b)
+        if OPAQUE[0] and rat_is_zero(x.b):
+            return _opaque("exp", x.a)
         raise EvalError(f"exp at {x.a!r}")
     if name == "expm1":
         if a0 == 0:
             return Dual(ZERO, x.b)
+        if OPAQUE[0] and rat_is_zero(x.b):
+            return _opaque("expm1", x.a)
         raise EvalError(f"expm1 at {x.a!r}")
     if name == "sqrt":
         if a0 == 0:
